@@ -16,3 +16,14 @@ Definition json_oracle (c : N * bytes * node * list (bytes * bytes) * list (byte
       if negb (list_eqb pair_eqb d expected) then 5
       else if list_eqb pair_eqb impl d then 0 else if known then 7 else 6
   end.
+
+(* go.mod: the generator's line list against its own rendering and the reference reading; the implementation's list
+   against the declared one.  0 = equal; 4 = the rendering differs from the text that was parsed; 5 = the declared list
+   differs from the generator's; 6 = property violated on a file of the grammar; 8 = outside the grammar (not judged here) *)
+From VL Require Import Spec.GoModFile.
+Definition gomod_oracle (c : list gline * bytes * list (bytes * bytes) * list (bytes * bytes)) : N :=
+  let '(f, text, impl, expected) := c in
+  if negb (file_ok false f) then 8
+  else if negb (beq (render f) text) then 4
+  else if negb (list_eqb pair_eqb (declared_go_mod f) expected) then 5
+  else if list_eqb pair_eqb impl (declared_go_mod f) then 0 else 6.
